@@ -102,7 +102,7 @@ func rowsString(rows []sut.WalkRow) string {
 
 // the *-massive operations run the From-Root side with WithMassive (a single root: the result is schedule-independent)
 // and compare it with the simple From-Markdown result
-var c03Ops = []string{"text", "text-fmt1", "text-fmt5", "json", "yaml", "toml", "walk", "walkiter", "text-massive", "walk-massive", "json-massive"}
+var c03Ops = []string{"text", "text-fmt1", "text-fmt5", "text-fmt2", "text-fmt7", "json", "yaml", "toml", "walk", "walkiter", "text-massive", "walk-massive", "json-massive"}
 
 // walking with the dry-run option (names are validated): both families must hand the same nodes to the callback
 // before they report the same error
@@ -193,6 +193,10 @@ func c03Op(op string, root *gtree.Node, doc string, alias bool) (res opResult, p
 		opts = append(opts, sut.FmtOpts(fmtTuples[1])...)
 	case "text-fmt5":
 		opts = append(opts, sut.FmtOpts(fmtTuples[5])...)
+	case "text-fmt2": // every branch string empty
+		opts = append(opts, sut.FmtOpts(fmtTuples[2])...)
+	case "text-fmt7": // an empty last connector, an empty intermediate continuation
+		opts = append(opts, sut.FmtOpts(fmtTuples[7])...)
 	case "json":
 		opts = append(opts, gtree.WithEncodeJSON())
 	case "yaml":
@@ -252,7 +256,7 @@ func c03Op(op string, root *gtree.Node, doc string, alias bool) (res opResult, p
 			}
 		}
 		switch op {
-		case "text", "text-fmt1", "text-fmt5", "json", "yaml", "toml", "dry":
+		case "text", "text-fmt1", "text-fmt5", "text-fmt2", "text-fmt7", "json", "yaml", "toml", "dry":
 			switch {
 			case root != nil && alias:
 				err = gtree.OutputProgrammably(&buf, root, opts...)
